@@ -84,3 +84,5 @@ fn c16_builder_rejects_unsupported() {
     kani::cover!(matches!(ports, PortDirection::FixedBoth(_, _)) && matches!(protocol, Protocol::Tcp), "tcp fixed both");
     std::mem::forget(r);
 }
+
+fn verif_reset_statics() {}
